@@ -23,8 +23,9 @@ type Group struct {
 
 // G is a group element, represented by the polynomial of its discrete logarithm.
 type G struct {
-	g *Group
-	p *Poly
+	g   *Group
+	p   *Poly
+	raw *node
 }
 
 var (
@@ -36,7 +37,14 @@ var (
 
 const pointSize = 33
 
-func (g *Group) mk(p *Poly) *G { return &G{g: g, p: p} }
+func (g *Group) mk(p *Poly) *G { return &G{g: g, p: p, raw: rawOfPoly(p)} }
+
+func (g *Group) mkr(p *Poly, raw *node) *G {
+	if raw == nil || p.isConst() {
+		return g.mk(p)
+	}
+	return &G{g: g, p: p, raw: raw}
+}
 
 func (g *Group) Name() string                             { return "symGroup(" + g.f.q.Text(16) + ")" }
 func (g *Group) Order() cardinal.Cardinal                 { return cardinal.NewFromBig(g.f.q) }
@@ -47,11 +55,11 @@ func (g *Group) Zero() *G                                 { return g.OpIdentity(
 func (g *Group) Generator() *G                            { return g.mk(polyConst(big.NewInt(1), g.f.q)) }
 func (g *Group) ScalarStructure() algebra.Structure[*F]   { return g.f }
 func (g *Group) ScalarField() algebra.PrimeField[*F]      { return g.f }
-func (g *Group) ScalarBaseOp(s *F) *G                     { return g.mk(s.p) }
-func (g *Group) ScalarBaseMul(s *F) *G                    { return g.mk(s.p) }
+func (g *Group) ScalarBaseOp(s *F) *G                     { return g.mkr(s.p, s.raw) }
+func (g *Group) ScalarBaseMul(s *F) *G                    { return g.mkr(s.p, s.raw) }
 
 // FromDlog builds the element [s]G.
-func (g *Group) FromDlog(s *F) *G { return g.mk(s.p) }
+func (g *Group) FromDlog(s *F) *G { return g.mkr(s.p, s.raw) }
 
 func (g *Group) FromBytes(b []byte) (*G, error) {
 	if len(b) != pointSize {
@@ -79,7 +87,7 @@ func (g *Group) Random(prng io.Reader) (*G, error) {
 	if err != nil {
 		return nil, err
 	}
-	return g.mk(g.run.newVar(name)), nil
+	return g.mk(g.run.drawVar(name)), nil
 }
 
 // Hash maps bytes to a group element whose discrete logarithm is an unknown-but-fixed function of
@@ -99,20 +107,20 @@ func (g *Group) Hash(b []byte) (*G, error) {
 // ---- element
 
 func (e *G) Structure() algebra.Structure[*G] { return e.g }
-func (e *G) Clone() *G                         { return &G{g: e.g, p: e.p} }
-func (e *G) Dlog() *F                          { return e.g.f.mk(e.p) }
+func (e *G) Clone() *G                         { return &G{g: e.g, p: e.p, raw: e.raw} }
+func (e *G) Dlog() *F                          { return e.g.f.mkr(e.p, e.raw) }
 func (e *G) IsSymbolic() bool                  { return !e.p.isConst() }
 
-func (e *G) Op(o *G) *G              { return e.g.mk(e.p.add(o.p, e.g.f.q)) }
+func (e *G) Op(o *G) *G              { return e.g.mkr(e.p.add(o.p, e.g.f.q), rawAdd(e.raw, o.raw)) }
 func (e *G) Add(o *G) *G             { return e.Op(o) }
-func (e *G) Sub(o *G) *G             { return e.g.mk(e.p.sub(o.p, e.g.f.q)) }
+func (e *G) Sub(o *G) *G             { return e.g.mkr(e.p.sub(o.p, e.g.f.q), rawSub(e.raw, o.raw)) }
 func (e *G) TrySub(o *G) (*G, error) { return e.Sub(o), nil }
-func (e *G) Neg() *G                 { return e.g.mk(e.p.neg(e.g.f.q)) }
+func (e *G) Neg() *G                 { return e.g.mkr(e.p.neg(e.g.f.q), rawNeg(e.raw)) }
 func (e *G) TryNeg() (*G, error)     { return e.Neg(), nil }
 func (e *G) OpInv() *G               { return e.Neg() }
 func (e *G) TryOpInv() (*G, error)   { return e.Neg(), nil }
-func (e *G) Double() *G              { return e.g.mk(e.p.scale(big.NewInt(2), e.g.f.q)) }
-func (e *G) ScalarOp(s *F) *G        { return e.g.mk(e.p.mul(s.p, e.g.f.q)) }
+func (e *G) Double() *G              { return e.g.mkr(e.p.scale(big.NewInt(2), e.g.f.q), rawScale(e.raw, big.NewInt(2))) }
+func (e *G) ScalarOp(s *F) *G        { return e.g.mkr(e.p.mul(s.p, e.g.f.q), rawMul(e.raw, s.raw)) }
 func (e *G) ScalarMul(s *F) *G       { return e.ScalarOp(s) }
 func (e *G) IsTorsionFree() bool     { return true }
 
